@@ -263,6 +263,23 @@ func registerHarnessAPI(e *Exec) {
 			elemEq := e.tc.Or(e.tc.Not(e.tc.Ult(k, a.Len)), e.tc.Eq(e.sel(ac, e.tc.Add(a.Off, k)), e.sel(bc, e.tc.Add(b.Off, k))))
 			return e.assertTerm(st, id, e.tc.And(lenEq, elemEq), "")
 		},
+		"vAssertEqBytesEither": func(e *Exec, st *State, fn *ssa.Function, args []Value) []Outcome {
+			// a == b || a == c ; the negation needs one Skolem index per disjunct
+			id := e.argString(args[0])
+			a := args[1].(SliceV)
+			eq := func(x SliceV) *Term {
+				k := e.tc.FreshVar("sk", 64)
+				var ac, xc Content = czero, czero
+				if !a.Base.IsNil() {
+					ac = e.containerContent(st, a.Base)
+				}
+				if !x.Base.IsNil() {
+					xc = e.containerContent(st, x.Base)
+				}
+				return e.tc.And(e.tc.Eq(a.Len, x.Len), e.tc.Or(e.tc.Not(e.tc.Ult(k, a.Len)), e.tc.Eq(e.sel(ac, e.tc.Add(a.Off, k)), e.sel(xc, e.tc.Add(x.Off, k)))))
+			}
+			return e.assertTerm(st, id, e.tc.Or(eq(args[2].(SliceV)), eq(args[3].(SliceV))), "")
+		},
 		"vReach": func(e *Exec, st *State, fn *ssa.Function, args []Value) []Outcome {
 			id := e.argString(args[0])
 			e.h.stat("reach:" + id).Reached++
